@@ -255,6 +255,11 @@ pub fn call(op: &str, e: &Ev) -> Option<Out> {
             v.extend_from_slice(&(&p + &qc).to_partial().to_bytes());
             v.extend_from_slice(&(&p - &qc).to_full().to_bytes());
             v.extend_from_slice(&(p.clone() - qc.clone()).to_partial().to_bytes());
+            // the doubled point in extended coordinates used as an operand (its t coordinate matters): Q + 2P, Q - 2P, 2 * (2P)
+            let d2 = p.double();
+            v.extend_from_slice(&(&q + &d2.to_cached()).to_full().to_bytes());
+            v.extend_from_slice(&(&q - &d2.to_cached()).to_full().to_bytes());
+            v.extend_from_slice(&d2.double().to_bytes());
             Out::Val(v)
         }
         _ => return None,
@@ -274,6 +279,13 @@ pub fn run_feprog(_h: &Ev, evs: &mut Vec<Value>) {
         let o = guarded(|| {
             let v = match op.as_str() {
                 "from_bytes" => Fe::from_bytes(&a32(&e, "bytes")),
+                // operators by value: they exist in the 32-bit back-end only (the f32 build of the harness)
+                #[cfg(feature = "f32")]
+                "add_v" => r[a].clone() + r[b].clone(),
+                #[cfg(feature = "f32")]
+                "sub_v" => r[a].clone() - r[b].clone(),
+                #[cfg(feature = "f32")]
+                "mul_v" => r[a].clone() * r[b].clone(),
                 "add" => &r[a] + &r[b],
                 "sub" => &r[a] - &r[b],
                 "neg" => -&r[a],
